@@ -104,6 +104,9 @@ func main() {
 				if (p == "slices" || p == "cmp" || p == "reflect") && im.Name == nil {
 					u.Imports[p] = "<std>/" + p
 				}
+				if p == "encoding/json" && im.Name == nil {
+					u.Imports["json"] = "<std>/json"
+				}
 				if !strings.HasPrefix(p, modulePath+"/") {
 					continue
 				}
@@ -113,6 +116,31 @@ func main() {
 					name = im.Name.Name
 				}
 				u.Imports[name] = dir
+			}
+		}
+		for _, gofile := range sp.StructFiles {
+			path := filepath.Join(*repo, gofile)
+			file, err := parser.ParseFile(t.fset, path, nil, parser.SkipObjectResolution)
+			if err != nil {
+				die("parse error: %v", err)
+			}
+			for _, d := range file.Decls {
+				if gd, ok := d.(*ast.GenDecl); ok && gd.Tok == token.TYPE {
+					u.TypeDecls = append(u.TypeDecls, gd)
+				}
+			}
+			for _, im := range file.Imports {
+				p, _ := strconv.Unquote(im.Path.Value)
+				if strings.HasPrefix(p, modulePath+"/") {
+					dir := strings.TrimPrefix(p, modulePath+"/")
+					name := filepath.Base(dir)
+					if im.Name != nil {
+						name = im.Name.Name
+					}
+					if _, dup := u.Imports[name]; !dup {
+						u.Imports[name] = dir
+					}
+				}
 			}
 		}
 		t.units = append(t.units, u)
@@ -339,7 +367,7 @@ func (t *translator) collectFuncs() {
 				if a := t.opaqueIface(u, rt, fd.Pos()); a != nil {
 					// method of an opaque (abstract) receiver type: a function of the abstract value
 					fi.Params = append(fi.Params, param{rn, ty{K: kAbs, A: a}})
-					fi.OpaqueRecv = rt
+					fi.OpaqueRecv, fi.RecvName, fi.OpaqueIface = rt, rn, a
 				} else {
 					s := t.findStruct(u.Dir, rt, u)
 					if s == nil {
@@ -511,6 +539,25 @@ func (t *translator) analyse() {
 				if c := t.sameRecvCallee(fi, x); c != nil {
 					fi.callees = append(fi.callees, c)
 				}
+				if sel, ok := x.Fun.(*ast.SelectorExpr); ok && fi.Recv != nil {
+					if id, ok := sel.X.(*ast.Ident); ok && id.Name == fi.RecvName && fi.Unit.Spec.External[sel.Sel.Name] {
+						fi.Writes = true
+					}
+				}
+				if sel, ok := x.Fun.(*ast.SelectorExpr); ok && fi.OpaqueRecv != "" { // opaque receiver: recv.M(...)
+					if id, ok := sel.X.(*ast.Ident); ok && id.Name == fi.RecvName {
+						translated := false
+						for _, g := range all {
+							if g.Unit == fi.Unit && g.OpaqueRecv == fi.OpaqueRecv && g.Name == sel.Sel.Name {
+								translated = true
+								fi.callees = append(fi.callees, g)
+							}
+						}
+						if !translated && !fi.OpaqueIface.Pure[sel.Sel.Name] && sel.Sel.Name != "Iterator" {
+							fi.Writes = true
+						}
+					}
+				}
 				if sel, ok := x.Fun.(*ast.SelectorExpr); ok && fi.Recv != nil { // recv.field.M(...) with an abstract field
 					if fs, ok := sel.X.(*ast.SelectorExpr); ok {
 						if id, ok := fs.X.(*ast.Ident); ok && id.Name == fi.RecvName {
@@ -577,7 +624,7 @@ func (t *translator) analyse() {
 func (t *translator) order(u *unit) []*funcInfo {
 	var mine []*funcInfo
 	for _, fi := range t.funcs {
-		if fi.Unit == u {
+		if fi.Unit == u && !fi.External {
 			mine = append(mine, fi)
 		}
 	}
@@ -694,6 +741,10 @@ func (t *translator) emit(u *unit) string {
 	for _, d := range deps {
 		fmt.Fprintf(&b, "From GodsGen Require %s.\n", d)
 	}
+	if u.UsesJson {
+		u.UsesMap = true
+		fmt.Fprintf(&b, "From GodsGenProofs Require GoJson. (* hand-written: bytes / errors for the abstract encoding/json, /verif/srcgen/coq/GoJson.v *)\n")
+	}
 	if u.UsesCmp {
 		fmt.Fprintf(&b, "From GodsGenProofs Require GoCmp. (* hand-written: comparators and tree nodes, /verif/srcgen/coq/GoCmp.v *)\n")
 	}
@@ -751,6 +802,20 @@ func (t *translator) emit(u *unit) string {
 	if u.UsesRT {
 		fmt.Fprintf(&b, "(* the capacity the Go runtime gives to a slice it allocates for n elements (slices.Clone, a reallocating\n   append / slices.Insert) is implementation-defined: a parameter *)\nSection Runtime.\nVariable alloc_cap : Z -> Z.\n\n")
 	}
+	if u.UsesJson {
+		fmt.Fprintf(&b, "(* encoding/json is ABSTRACT: json.Unmarshal(data, &x) gives x the value unmarshal_*(data, old x) and returns the\n   error flag (true = error; x may be changed on an error too); json.Marshal(x) = marshal_*(x) *)\nSection Json.\n")
+		fmt.Fprintf(&b, "Variable unmarshal_slice : GoJson.bytes -> Datatypes.list Z -> (Datatypes.list Z * bool).\n")
+		fmt.Fprintf(&b, "Variable unmarshal_map : GoJson.bytes -> GoMap.gmap -> (GoMap.gmap * bool).\n")
+		fmt.Fprintf(&b, "Variable marshal_slice : Datatypes.list Z -> (GoJson.bytes * bool).\n")
+		fmt.Fprintf(&b, "Variable marshal_map : GoMap.gmap -> (GoJson.bytes * bool).\n")
+		if u.Spec.CapSlices {
+			fmt.Fprintf(&b, "Variable unmarshal_cslice : GoJson.bytes -> GoSlice.slice -> (GoSlice.slice * bool).\n")
+		}
+		if u.UsesNilP {
+			fmt.Fprintf(&b, "Variable slice_is_nil : GoSlice.slice -> bool. (* nil-ness of a slice is not part of GoSlice.slice *)\n")
+		}
+		b.WriteString("\n")
+	}
 	if u.UsesSame {
 		fmt.Fprintf(&b, "(* reflect.ValueOf(c1).Pointer() == reflect.ValueOf(c2).Pointer(): whether two comparators are THE SAME function\n   value is not expressible on mathematical functions: an abstract boolean (as in the model) *)\nSection SameComparator.\nVariable same_comparator : GoCmp.comparator -> GoCmp.comparator -> bool.\n\n")
 	}
@@ -764,6 +829,9 @@ func (t *translator) emit(u *unit) string {
 		}
 		b.WriteString("\n")
 	}
+	if len(u.Externals) > 0 {
+		fmt.Fprintf(&b, "(* methods of the struct that are not translated (declared in another file of the package) but called: parameters *)\nSection Externals.\n\n")
+	}
 	if len(u.IterEnums) > 0 {
 		fmt.Fprintf(&b, "(* x.Iterator() / for it.Next(): the iterator is the abstract enumeration of the (index-or-key, value) pairs\n   of the container (what Machine.each_of / the C08 cursor say it walks): a parameter *)\nSection Iterators.\n\n")
 	}
@@ -774,12 +842,33 @@ func (t *translator) emit(u *unit) string {
 	if len(u.IterEnums) > 0 {
 		b.WriteString("\n")
 	}
+	for _, x := range u.Externals {
+		parts := []string{mangle(x.Recv.Name)}
+		for _, p := range x.Params {
+			parts = append(parts, t.coqType(p.Ty, u))
+		}
+		var rs []ty
+		for _, r := range x.Results {
+			rs = append(rs, r.Ty)
+		}
+		res := t.resultType(rs, u)
+		if x.Writes {
+			res = "(" + mangle(x.Recv.Name) + " * " + res + ")"
+		}
+		fmt.Fprintf(&b, "Variable %s : %s.\n", x.Coq, strings.Join(append(parts, res), " -> "))
+	}
+	if len(u.Externals) > 0 {
+		b.WriteString("\n")
+	}
 	for _, fi := range u.Funcs {
 		b.WriteString(fi.text)
 		b.WriteString("\n")
 	}
 	if len(u.IterEnums) > 0 {
 		fmt.Fprintf(&b, "End Iterators.\n\n")
+	}
+	if len(u.Externals) > 0 {
+		fmt.Fprintf(&b, "End Externals.\n\n")
 	}
 	if len(u.Abs) > 0 {
 		fmt.Fprintf(&b, "End Wrapped.\n\n")
@@ -789,6 +878,9 @@ func (t *translator) emit(u *unit) string {
 	}
 	if u.UsesSame {
 		fmt.Fprintf(&b, "End SameComparator.\n\n")
+	}
+	if u.UsesJson {
+		fmt.Fprintf(&b, "End Json.\n\n")
 	}
 	if u.UsesRT {
 		fmt.Fprintf(&b, "End Runtime.\n\n")
